@@ -4,8 +4,8 @@
    settings, and the size constants. *)
 From Coq Require Import List NArith String Bool.
 From Gen Require Import Tables.
-From Model Require Import Base Names Flt F32 Matches Detect.
-From Proofs Require Import DetectFacts DetectSound.
+From Model Require Import Base Names Flt F32 Matches Detect Decode.
+From Proofs Require Import DetectFacts DetectSound SbFacts.
 Import ListNotations.
 Open Scope N_scope.
 
@@ -96,3 +96,25 @@ Proof.
   split; [discriminate|]. pose proof toy_outcome_true as H. unfold toy_outcome in H.
   destruct (from_bytes F32ops toy toy_input toy_cfg) as [[|m [|m' r']]| |]; try discriminate. eauto.
 Qed.
+
+(* (4) LazyContract discharged: if the three decode oracles are, on non-multi-byte encodings, the model of
+       utils::decode over the table decoder of Model/Decode.v (what the `decode` level compares with the
+       helper for the crate's 30 single-byte tables, in strict / test-only / chunk mode, on every run) and no
+       table contains U+FEFF (checked on the dumped tables on every run), the property holds with no
+       contract left -- on both sides of the 1,000,000-byte limit. *)
+Theorem C01_decodes_single_byte_modelled :
+  forall FO (R : oracles FO) tables,
+    SbModelled FO R tables -> (forall e, Forall (fun c => c <> 65279) (tables e)) ->
+  forall b cfg r, b <> [] -> from_bytes FO R b cfg = Ok r ->
+    forall m e, In m r -> In e (suitable_encodings FO m) ->
+      m_payload FO m = b /\ exists t, m_text FO m = Some t /\ sdecode FO R e (strip b e) = Some t.
+Proof.
+  intros FO R tables HM HN b cfg r. apply C01_decodes. exact (sb_lazy_contract FO R tables HM HN).
+Qed.
+Print Assumptions C01_decodes_single_byte_modelled.
+
+Theorem C01_single_byte_decoding_is_bytewise :
+  forall table l1 l2 t1 t2,
+    sb_strict table l1 = Some t1 -> sb_strict table l2 = Some t2 -> sb_strict table (l1 ++ l2) = Some (t1 ++ t2).
+Proof. exact sb_strict_app. Qed.
+Print Assumptions C01_single_byte_decoding_is_bytewise.
